@@ -2022,7 +2022,13 @@ pub fn run_with_block(scn: &Scenario, cfg: &SimCfg, block_at: usize) -> SimOut {
         }
     }
     if let Err(e) = connect_and_run_v(&mut sim.w, ConnectSpec::default(), &connack, &WritePlan::default(), scn.prologue & 127) {
-        sim.failures.push(Failure { sig: "HARNESS/prologue".into(), msg: e });
+        // a panic while the connection is being established (varied prologues: reused Context,
+        // AUTH exchange, ...) is the library's, not the harness's
+        let sig = match sim.w.panics.first() {
+            Some((_, m)) => format!("PANIC/{}", panic_sig(m)),
+            None => "HARNESS/prologue".to_string(),
+        };
+        sim.failures.push(Failure { sig, msg: e });
         return SimOut { failures: sim.failures, stats: Stats::default(), proj: Projections::default() };
     }
     if scn.id_offset > 0 && !sim.w.warm_up_identifiers(scn.id_offset) {
